@@ -104,24 +104,17 @@ impl GraphBlock {
             }
             GraphBlock::OrderedList(items) => items
                 .iter()
+                .map(|item| item_to_markdown(item, self.is_sparce_list(), options))
+                .filter(|item| !item.is_empty())
                 .enumerate()
-                .map(|(n, item)| {
-                    left_pad_and_prefix_num(
-                        &blocks_to_markdown_and(item, self.is_sparce_list(), options),
-                        n + 1,
-                    )
-                })
+                .map(|(n, item)| left_pad_and_prefix_num(&item, n + 1))
                 .collect::<Vec<String>>()
                 .join(if self.is_sparce_list() { "\n" } else { "" }),
             GraphBlock::BulletList(items) => items
                 .iter()
-                .map(|item| {
-                    left_pad_and_prefix(&blocks_to_markdown_and(
-                        item,
-                        self.is_sparce_list(),
-                        options,
-                    ))
-                })
+                .map(|item| item_to_markdown(item, self.is_sparce_list(), options))
+                .filter(|item| !item.is_empty())
+                .map(|item| left_pad_and_prefix(&item))
                 .collect::<Vec<String>>()
                 .join(if self.is_sparce_list() { "\n" } else { "" }),
             GraphBlock::Header(level, inlines) => {
@@ -571,6 +564,29 @@ pub fn blocks_to_markdown_and(blocks: &Blocks, sparce: bool, options: &MarkdownO
         .map(|block| block.to_markdown(options))
         .collect::<Vec<String>>()
         .join(if sparce { "\n" } else { "" })
+}
+
+/// A list item is written as its blocks, the first one after the marker. An item without text of
+/// its own (the first block is an empty paragraph) starts with the block that follows; an item
+/// that holds nothing else is not written at all.
+fn item_to_markdown(item: &Blocks, sparce: bool, options: &MarkdownOptions) -> String {
+    match item.split_first() {
+        Some((GraphBlock::Plain(text), blocks)) | Some((GraphBlock::Para(text), blocks))
+            if text.is_empty() =>
+        {
+            blocks
+                .iter()
+                .enumerate()
+                .map(|(n, block)| match block {
+                    // dashes right after a `-` marker would read as a rule, not as an item
+                    GraphBlock::HorizontalRule if n == 0 => format!("{}\n", "*".repeat(72)),
+                    _ => block.to_markdown(options),
+                })
+                .collect::<Vec<String>>()
+                .join(if sparce { "\n" } else { "" })
+        }
+        _ => blocks_to_markdown_and(item, sparce, options),
+    }
 }
 
 pub fn blocks_to_markdown(blocks: &Blocks, options: &MarkdownOptions) -> String {
